@@ -1,5 +1,6 @@
 CONSTANTS
- MaxN = 2
+ MaxN = 3
+ PairN = 2
  Family = "graph"
 SPECIFICATION Spec
 INVARIANT EmitWitnesses
